@@ -293,6 +293,20 @@ def _check(case):
         return {"msg": f"{desc}: row lengths {ragged_lengths(res)} / rows {got_rows}, expected lengths {lengths}",
                 "what": f"wrong-lengths:{_sig_class(case)}"}
     rtol = 1e-6 if (uf == "power" and exp_dtype.kind == "f") else 0.0
+    if case["via"] == "op" and (res.dtype != exp_dtype or not seq_eq(got_rows, exp_list, rtol)):
+        # numpy's own operators are not always the ufunc (ndarray ** 2 is rewritten to np.square: bool ** 2 is int8
+        # but np.power(bool, 2) is int64); a ragged operator that equals the ufunc numpy names for it is accepted
+        try:
+            uff = getattr(np, uf)
+            alt_flat = (uff(np.array(flat(rows1), dtype=dt1)) if kind == "unary" else
+                        (uff(np.array(flat(rows1), dtype=dt1), other_flat) if side == "R" else uff(other_flat, np.array(flat(rows1), dtype=dt1))))
+            alt_rows = [np.asarray(uff(np.array(rows1[i], dtype=dt1)) if kind == "unary" else
+                                   (uff(np.array(rows1[i], dtype=dt1), other_rows[i]) if side == "R"
+                                    else uff(other_rows[i], np.array(rows1[i], dtype=dt1)))).tolist() for i in range(n)]
+            if res.dtype == np.asarray(alt_flat).dtype and seq_eq(got_rows, alt_rows, rtol):
+                exp_dtype, exp_list = res.dtype, alt_rows
+        except (TypeError, ValueError, OverflowError, ZeroDivisionError):
+            pass
     if res.dtype != exp_dtype:
         also = "" if seq_eq(got_rows, exp_list, rtol) else " (the values differ too)"
         return {"msg": f"{desc}: result dtype {res.dtype} rows {short(got_rows)}; numpy gives dtype {exp_dtype} rows "
